@@ -1,7 +1,7 @@
 SPECIFICATION Spec
 CONSTANTS
-  UnaryGlue = "spaced"
+  UnaryGlue = "asis"
   IdentQuote = "asis"
   EBound = "small"
-INVARIANTS KeepsRole KeepsExec KeepsDenotation
+INVARIANTS RoundTrip KeepsRole KeepsExec KeepsDenotation
 CHECK_DEADLOCK FALSE
